@@ -241,9 +241,11 @@ class Exec:
             rs = [self.rxn(r) if (op.get("by") == "obj" and r in m.reactions) else r for r in op["rs"]]
             for r in op["rs"]:
                 if r in m.reactions and self.depth == 0:
-                    # only reactions removed outside every context are re-added later (see known_findings.json:
-                    # remove + re-add + rename inside one context)
+                    # only reactions removed outside every context are re-added or edited later (see known_findings.json:
+                    # remove + re-add + rename inside one context; edit-removed-reaction-inside-context)
                     self.removed[r] = m.reactions.get_by_id(r)
+                elif r in m.reactions:
+                    self.removed.pop(r, None)       # removed inside a context: the context will bring it back, hands off until then
             if op.get("junk") == "none":
                 rs.append(None)            # an element that makes the call raise after the others were handled
             elif op.get("junk") == "int":
@@ -254,6 +256,37 @@ class Exec:
             if R is None or R.id in m.reactions or R._model is not None:
                 raise KeyError(op["r"])
             m.add_reactions([R])
+        elif k == "ctx_bad_add":
+            # inside a context of its own: some edits, then add_reactions with an identifier the solver refuses; the exception ends the block
+            R = Reaction(op["id"], lower_bound=0, upper_bound=10)
+            R.add_metabolites({m.metabolites.get_by_id(op["m"]): 1.0})
+            good = Reaction(op["good"], lower_bound=0, upper_bound=5)
+            good.add_metabolites({m.metabolites.get_by_id(op["m"]): -1.0})
+            try:
+                with m:
+                    if op["first"] and op["good"] not in m.reactions:
+                        m.add_reactions([good])
+                    m.add_reactions([R] if op["alone"] else [good, R] if op["good"] not in m.reactions else [R])
+            except ValueError:
+                pass
+        elif k == "ctx_rm_edit":
+            # inside a context of its own: a reaction is removed, edited while it belongs to no model, and the context is left
+            R = self.rxn(op["r"])
+            with m:
+                m.remove_reactions([R])
+                R.bounds = (fl(op["lb"]), fl(op["ub"]))
+        elif k == "detached_rule":
+            R = self.removed.get(op["r"])
+            if R is None or R._model is not None:
+                raise KeyError(op["r"])
+            R.gene_reaction_rule = op["rule"]        # a reaction that is in no model: the model must not notice
+        elif k == "detached_bounds":
+            R = self.removed.get(op["r"])
+            if R is None or R._model is not None:
+                raise KeyError(op["r"])
+            R.bounds = (fl(op["lb"]), fl(op["ub"]))
+        elif k == "build_str":
+            self.rxn(op["r"]).build_reaction_from_string(op["eq"])
         elif k == "set_functional":
             m.genes.get_by_id(op["g"]).functional = op["v"]
         elif k == "add_model_mets":
@@ -326,6 +359,8 @@ PROFILES = [
     ["add_mets"] * 5 + ["sub_mets"] * 3 + ["imul", "set_bounds", "rm_mets", "add_model_mets", "set_obj"] + CTX,             # stoichiometry
     ["set_rule"] * 4 + ["ko_gene"] * 2 + ["ko_genes", "remove_genes", "remove_genes", "rename_genes", "rename_genes", "rm_rxns", "add_rxns"] + CTX,  # genes and rules
     ["add_rxns"] * 3 + ["rm_rxns"] * 3 + ["readd_rxn"] * 2 + ["rename_rxn"] * 2 + ["rename_met", "ctx_add_rename", "ctx_add_rename", "add_boundary", "rm_mets", "add_model_mets", "set_obj", "obj_coef", "set_obj"] + CTX,  # structure and objective
+    ["copy", "copy", "deepcopy", "pickle", "switch_solver", "set_bounds", "set_bounds", "ko_rxn", "ko_gene", "set_ub", "set_lb", "add_rxns", "rm_rxns", "obj_coef", "set_dir", "imul"] + CTX,   # life cycle: copies, pickles, solver switches between edits
+    ["rm_rxns"] * 3 + ["ctx_rm_edit"] * 3 + ["detached_rule"] * 3 + ["detached_bounds"] * 2 + ["readd_rxn"] * 3 + ["build_str"] * 3 + ["add_rxns_badid"] * 2 + ["set_rule", "ko_gene", "add_rxns"] + CTX,   # objects outside the model, equations, refused identifiers
 ]
 
 MODELLED = {"set_lb", "set_ub", "set_bounds", "ko_gene", "ko_rxn", "ko_genes", "obj_coef", "set_dir", "enter", "exit",
@@ -470,6 +505,25 @@ def gen_op(rng, ex: Exec, kinds=None, p_bad=0.12):
         if bad and rng.random() < 0.6:
             op["junk"] = rng.choice(["none", "int"])
         return op
+    if k == "ctx_rm_edit":
+        lb, ub = gen_bounds(rng)
+        return {"op": k, "r": some_r(), "lb": lb, "ub": ub}
+    if k in ("detached_rule", "detached_bounds"):
+        cand = [r for r, R in ex.removed.items() if r not in rids and R._model is None]
+        if not cand:
+            return {"op": "rm_rxns", "rs": [some_r()], "orphans": False, "by": "obj"}
+        if k == "detached_bounds":
+            lb, ub = gen_bounds(rng)
+            return {"op": k, "r": rng.choice(cand), "lb": lb, "ub": ub}
+        R = ex.removed[rng.choice(cand)]
+        keep = sorted(g.id for g in R.genes)
+        pool = (keep[:1] if keep else []) + rng.sample(GIDS, 2)
+        return {"op": k, "r": R.id, "rule": rng.choice([" and ".join(pool[:2]), " or ".join(pool), pool[0] if pool else ""])}
+    if k == "build_str":
+        ms = rng.sample(mids, min(len(mids), 3)) if mids else ["A"]
+        a, b = ms[0], ms[-1]
+        eq = rng.choice([f"2 {a} + {a} --> {b}", f"{a} + {b} --> {a} + {ms[len(ms) // 2]}", f"{a} <=> 2 {b}", f"{a} + {a} <-- {b}", f"3 {a} --> "])
+        return {"op": k, "r": some_r(), "eq": eq}
     if k == "readd_rxn":
         cand = [r for r, R in ex.removed.items() if r not in rids and R._model is None]
         if not cand:
@@ -533,8 +587,24 @@ def gen_op(rng, ex: Exec, kinds=None, p_bad=0.12):
         return {"op": k, "r": some_r(), "k": rng.choice(["2", "-1", "1/2", "-2", "4"])}
     if k == "remove_genes":
         return {"op": k, "gs": rng.sample(gids, rng.randint(1, min(2, len(gids)))) if gids else [rng.choice(GIDS)], "rr": rng.random() < 0.5}
+    if k == "add_rxns_badid":
+        # an identifier the solver refuses (whitespace): add_reactions raises while the variables are being built.  Outside a context the
+        # model is left half-updated (known finding add-reactions-refused-identifier-not-atomic); the generated scenario is the one the
+        # context has to take back: the exception ends a `with model:` block
+        if not mids:
+            return {"op": "slim_optimize"}
+        return {"op": "ctx_bad_add", "id": rng.choice(["r 9", "bad id"]), "m": rng.choice(mids), "good": rng.choice(FRESH_R), "first": rng.random() < 0.5,
+                "alone": rng.random() < 0.5}
+    if k in ("copy", "deepcopy", "pickle") and "exact" in type(m.solver).__module__:
+        # optlang rebuilds a copied glpk_exact problem with variables of the plain glpk interface; such a copy cannot take a removed variable
+        # back (known_findings.json: glpk-exact-copy-mixed-interface): copies are made from the glpk interface only
+        return {"op": "switch_solver", "solver": "glpk"} if ex.depth == 0 else {"op": "slim_optimize"}
     if k in ("enter", "exit", "copy", "deepcopy", "pickle", "slim_optimize"):
         return {"op": k}
     if k == "switch_solver":
+        if ex.depth > 0:
+            # inside a context the switch cannot be taken back once other undo functions hold objects of the old solver
+            # (known_findings.json: solver-switch-inside-context)
+            return {"op": "slim_optimize"}
         return {"op": k, "solver": rng.choice(["glpk", "glpk_exact"])}
     raise RuntimeError(k)
